@@ -981,6 +981,9 @@ fn doc_vi_cmd(rng: &mut Rng, toks: &mut Vec<String>, insert_mode: &mut bool, fas
             }
             if op == b'c' {
                 *insert_mode = true;
+            } else if op == b'y' && rng.chance(2, 3) {
+                // what was copied is only visible through a put
+                toks.push(rng.pick(&["50", "70"]).to_string());
             }
         }
         58..=67 => toks.push(format!("{:02x}", *rng.pick(b"xXDxX\x0b"))),
@@ -995,7 +998,22 @@ fn doc_vi_cmd(rng: &mut Rng, toks: &mut Vec<String>, insert_mode: &mut bool, fas
         83..=87 => toks.push(rng.pick(DOC_ESCAPES).to_string()),
         88..=91 => toks.push(rng.pick(&["14", "15", "17", "04", "1b5b337e"]).to_string()),
         92 => toks.push(rng.pick(&["70", "50", "75", "2e", "6a", "6b", "10", "0e"]).to_string()),
-        96 => toks.push("03".to_string()),
+        96 if rng.chance(1, 3) => toks.push("03".to_string()),
+        96 => {
+            // a count before the operator AND before the motion (they multiply), from the start of
+            // the line so that the text is long enough to tell 2x3 from 3
+            toks.push("30".to_string());
+            toks.push(format!("{:02x}", b'2' + rng.below(2) as u8));
+            let op = *rng.pick(b"dyc");
+            toks.push(format!("{:02x}", op));
+            toks.push(format!("{:02x}", b'2' + rng.below(2) as u8));
+            toks.push(format!("{:02x}", *rng.pick(b"lwlw ")));
+            if op == b'c' {
+                *insert_mode = true;
+            } else if op == b'y' {
+                toks.push("50".to_string());
+            }
+        }
         93..=95 | 97 | 98 => {
             // operator x character search from the start (forward) or the end (backward) of the line,
             // so that the target is likely to be found; multi-byte targets included
@@ -1475,7 +1493,8 @@ pub fn gen_profile(ctx: &GenCtx, tag: &str, profile: Profile, sink: &mut dyn FnM
             Profile::General => 3,
             Profile::Validator | Profile::Complete => 1,
             Profile::Malformed => 2,
-            Profile::History | Profile::Search | Profile::Kill | Profile::Undo => 6,
+            Profile::History | Profile::Search | Profile::Kill => 6,
+            Profile::Undo => 3,
             Profile::Doc => 8,
         };
         let cols = *rng.pick(&[80u16, 80, 20, 10]);
@@ -1495,7 +1514,9 @@ pub fn gen_profile(ctx: &GenCtx, tag: &str, profile: Profile, sink: &mut dyn FnM
                 t
             })
             .collect();
-        let (left, right) = if rng.chance(1, 4) {
+        let (left, right) = if profile == Profile::Doc && rng.chance(1, 3) {
+            (rand_text(&mut rng, 6, true), rand_text(&mut rng, 10, true))
+        } else if rng.chance(1, 4) {
             (rand_text(&mut rng, 4, true), rand_text(&mut rng, 4, true))
         } else {
             (String::new(), String::new())
@@ -1551,6 +1572,19 @@ pub fn gen_profile(ctx: &GenCtx, tag: &str, profile: Profile, sink: &mut dyn FnM
                     doc_vi_key(&mut rng, &mut toks, &mut insert_mode);
                 } else {
                     doc_emacs_key(&mut rng, &mut toks);
+                }
+                continue;
+            }
+            if profile == Profile::Undo && !vi && helper.contains("C=") && rng.chance(1, 5) {
+                // a completion cycled through some or all of its candidates (and back to the
+                // original text), aborted, then the Undo probe: as if it had never been started
+                for _ in 0..(1 + rng.below(5)) {
+                    toks.push(rng.pick(&["09", "09", "09", "1b5b5a"]).to_string());
+                }
+                toks.push(rng.pick(&["07", "07", "1b"]).to_string());
+                toks.push("1f".to_string());
+                if rng.chance(1, 2) {
+                    toks.push("1f".to_string());
                 }
                 continue;
             }
